@@ -2,11 +2,12 @@
 # tools/mutbatch.sh <tier> <ID>... : evaluate /tmp/mut/<ID>/out/{1,2}/patch.diff with that property's check
 tier=$1; shift
 cd "$(dirname "$0")/.."
+mkdir -p ${MUTROOT:-/tmp/mut2}/results
 for id in "$@"; do for n in 1 2; do
-  p=/tmp/mut/$id/out/$n/patch.diff
+  p=${MUTROOT:-/tmp/mut2}/$id/out/$n/patch.diff
   [ -f "$p" ] || continue
-  ( tools/trymutant.sh "$p" "$tier" "$id" > /tmp/mut/results/$id-$n.$tier.log 2>&1 ) &
+  ( tools/trymutant.sh "$p" "$tier" "$id" > ${MUTROOT:-/tmp/mut2}/results/$id-$n.$tier.log 2>&1 ) &
   while [ $(jobs -r | wc -l) -ge 4 ]; do sleep 1; done
 done; done
 wait
-for id in "$@"; do for n in 1 2; do f=/tmp/mut/results/$id-$n.$tier.log; [ -f $f ] && echo "$id-$n: $(grep '^== ' $f | cut -c1-150)"; done; done
+for id in "$@"; do for n in 1 2; do f=${MUTROOT:-/tmp/mut2}/results/$id-$n.$tier.log; [ -f $f ] && echo "$id-$n: $(grep '^== ' $f | cut -c1-150)"; done; done
